@@ -58,6 +58,11 @@ func TestWorker(t *testing.T) {
 			fmt.Printf("START %d\n", i)
 			if p.Multi != nil {
 				res := p.Multi(t, p, seed, tier, i, dir)
+				if mode == "determinism" {
+					if res2 := p.Multi(t, p, seed, tier, i, ""); res2.LogHash != res.LogHash || res2.Calls != res.Calls {
+						res.EngineErr = fmt.Sprintf("nondeterministic: %s/%d vs %s/%d", res.LogHash, res.Calls, res2.LogHash, res2.Calls)
+					}
+				}
 				res.sim = nil
 				emit("RUN", res)
 				continue
